@@ -14,9 +14,9 @@ from tools.vlib import Outcome
 from tools.props import c12_gen as G
 
 MANIFEST = {
-    "level_text": "Coq theorems (Properties/C12.v, no axioms) about a structural Gallina transcription of event_parser.rs (expression/statement walker, receiver heuristic, function-wide symbol table, infer_payload_type with its fall-backs), event_name_to_function and the events.ts template, for all projects, function bodies (no depth bound), receivers, names and payload forms: every emit at a documented placement is found by the walker (C12_walker_complete, rule induction on EmitsAt over the mutually inductive syntax, any symbol table); on in-domain projects the event list is exactly the list of documented sites in order (C12_walker_exact / C12_walker_sound, nested induction); the listener identifier is a legal non-reserved TypeScript identifier for every event name whatsoever (every non-alphanumeric character becomes '_' before PascalCase); one listener per distinct name however often it is emitted (first emit site in sorted file order wins); main theorem C12_listeners_partial on the complement of the one remaining naming class kf_collision (distinct names with one identifier) and, for payloads, of kf_name_fallback / kf_last_segment / kf_ctor_guess / kf_scope: listeners in bijection with the documented names, each subscribed to its own name, identifiers legal and pairwise distinct, every event from a documented site, and outside the payload classes the payload string is the evident type's name, `()` for unit, `unknown` when nothing is evident (C12_payload_site); no events implies no events.ts and no re-export. String level, token part (C12_events_tokens_parse, for every list of listener records): the token stream of events.ts - two imports, then the listener template once per record with holes for identifier, event name and payload type - has no lexical error, parses with Spec/TsModule.v into the imports plus exactly one function item per record, and the observation layer (find_listen) reads back exactly the records; character part (C12_lex_statement, proved, fuel included): the specification lexer reads exactly that token stream from the text the model prints, for every event list with legal names, hence C12_events_text_parses: parse_module (events_text l) yields exactly the listener records; C12_payload_text_custom: every custom payload type name N renders to the text types.N. Six narrow defect classes (boolean predicates shared by the theorems and the run-time matcher) carry computed witnesses; the witnesses of the four repaired defects (C12-dup, C12-ident, C12-tuple, C12-path) are positive theorems now (C12_*_repaired). The model is tied to /repo on every run: EventParser's events per file compared in order, events.ts compared token for token and in order with the model's text, index.ts re-export and presence of the file compared, and the extracted oracle applied to the files the real CLI wrote.",
+    "level_text": "Coq theorems (Properties/C12.v, no axioms) about a structural Gallina transcription of event_parser.rs (expression/statement walker, receiver heuristic, function-wide symbol table, infer_payload_type with its fall-backs), event_name_to_function and the events.ts template, for all projects, function bodies (no depth bound), receivers, names and payload forms: every emit at a documented placement is found by the walker (C12_walker_complete, rule induction on EmitsAt over the mutually inductive syntax, any symbol table); on in-domain projects the event list is exactly the list of documented sites in order (C12_walker_exact / C12_walker_sound, nested induction); the listener identifier is a legal non-reserved TypeScript identifier for every event name whatsoever (every non-alphanumeric character becomes '_' before PascalCase); one listener per distinct name however often it is emitted (first emit site in sorted file order wins); main theorem C12_listeners_partial on the complement of the one remaining naming class kf_collision (distinct names with one identifier) and, for payloads, of kf_name_fallback / kf_last_segment / kf_ctor_guess / kf_scope: listeners in bijection with the documented names, each subscribed to its own name, identifiers legal and pairwise distinct, every event from a documented site, and outside the payload classes the payload string is the evident type's name, `()` for unit, `unknown` when nothing is evident (C12_payload_site); no events implies no events.ts and no re-export. String level, token part (C12_events_tokens_parse, for every list of listener records): the token stream of events.ts - two imports, then the listener template once per record with holes for identifier, event name and payload type - has no lexical error, parses with Spec/TsModule.v into the imports plus exactly one function item per record, and the observation layer (find_listen) reads back exactly the records; character part (C12_lex_statement, proved, fuel included): the specification lexer reads exactly that token stream from the text the model prints, for every event list with legal names, hence C12_events_text_parses: parse_module (events_text l) yields exactly the listener records; C12_payload_text_custom: every custom payload type name N renders to the text types.N. Composition: C12_full / C12_full_names - the extracted oracle returns no complaint on the files the model generates, for every in-domain project outside the classes under a boolean payload-name condition (C12_sites_legal discharges the event-name condition; C12_name_ok_prim / C12_name_ok_custom discharge the name condition for primitive and unmapped custom names). Six narrow defect classes (boolean predicates shared by the theorems and the run-time matcher) carry computed witnesses; the witnesses of the four repaired defects (C12-dup, C12-ident, C12-tuple, C12-path) are positive theorems now (C12_*_repaired). The model is tied to /repo on every run: EventParser's events per file compared in order, events.ts compared token for token and in order with the model's text, index.ts re-export and presence of the file compared, and the extracted oracle applied to the files the real CLI wrote.",
     "design_ref": "DESIGN.md section 5 C12, section 11 (Events.v spike), section 12",
-    "level_note": "What is still not asserted is C12_full_statement itself (the oracle returns no complaint on the model's files for every in-domain project outside the classes): its ingredients are now all proved for-all - walker exactness, one record per distinct name with legal distinct identifiers (C12_listeners_partial), payload string of the evident type outside the payload classes (C12_payload_site), payload text for leaves and for every custom name (payload_ts_leaves, C12_payload_text_custom), and text -> tokens -> items -> records (C12_lex_statement, C12_events_tokens_parse, C12_events_text_parses) - but the last composition, evaluating the boolean oracle over the parsed listener list (filter by event name under NoDup, ty_eqb reflexivity against expect_ty of the first site, has_dup from NoDup), is not carried out, so the three theorem names keep _partial; the oracle accepts the model's files by evaluation on C12_ex_clean and on every case of the run. Domain restriction stated in the theorems: event names over [A-Za-z0-9_/:-] (the template does not escape quote, backslash, line break or star-slash). Trusted: Coq kernel; python case printer (case -> Rust source and s-expression); syn (the model's input is the AST); Tera; Spec/TsModule.v as the reading of TypeScript; files are handed to the model in sorted path order.",
+    "level_note": "The composition is now asserted: C12_full (for every in-domain project outside the classes whose sites satisfy the boolean payload-text condition payload_dom, the oracle has no complaint about the model's files), C12_full_names (the same with the condition reduced, through the absence of the payload classes, to payload type NAMES: names_dom = no mapping for `unknown`, no empty struct path, name_ok for every inferred type name), C12_oracle_accepts_text (text level, any site list and mapping), C12_sites_legal (event names of in-domain sites are legal: no longer a side condition), C12_name_ok_prim / C12_name_ok_custom (name_ok for every primitive Rust name under every mapping and for every unmapped custom identifier that is not a TypeScript builtin, a container name or `listen`). What remains between C12_full_names and the unrestricted C12_full_statement is name hygiene only, kept as the unasserted Definition C12_names_dom_statement (false as it stands: a type named `string`, `Vec` without arguments or `listen`, or a mapping with a non-identifier target, defeats it): name_ok for mapped names is shown by evaluation (Example C12_ex_full_dom) but not for all targets, and the hygiene conditions are not part of in_domain. The theorem names C12_listeners_partial / C12_listener_records_partial / C12_payload_simple_partial are kept for reference stability; they are ingredients of C12_full. Domain restriction: event names over [A-Za-z0-9_/:-] (the template does not escape quote, backslash, line break or star-slash). Trusted: Coq kernel; python case printer; syn; Tera; Spec/TsModule.v as the reading of TypeScript; files handed to the model in sorted path order.",
     "technique": "Rocq/Coq proof over hand-written model + correspondence check (extracted OCaml vs Rust harness and the real CLI)"
 }
 
